@@ -21,7 +21,7 @@ class Ref0:
         self.uni = ex.uni
         self.z = ex.z
 
-    def unaltered(self, a, b, consumer='!!!'):
+    def unaltered(self, a, b, consumer='!!!', producer=None):
         """formula: the configured comparison, asked on behalf of `consumer`, judges a (recorded term) and b (current
         term) unaltered"""
         m = self.uni.mode
@@ -30,7 +30,7 @@ class Ref0:
         if m == 'rel':
             return F.Rel(a, b)
         if m == 'reld':
-            return F.RelD(consumer, a, b)
+            return F.RelD(consumer if producer is None else producer + '\x02' + consumer, a, b)
         return F.Or(F.Eq(a, b), F.Rel(a, b))
 
     def pres(self, spec):
@@ -76,7 +76,7 @@ class Ref0:
         pe = F.FALSE
         if e is not None:
             pe = self.pres(e)
-            direct = F.And(pe, self.unaltered(rt.term_of(e[0]), cur_u, j))
+            direct = F.And(pe, self.unaltered(rt.term_of(e[0]), cur_u, j, u))
         cands = self.renamed_candidates(u, j)
         if not cands:
             return direct
@@ -87,7 +87,7 @@ class Ref0:
         absent_so_far = F.Not(pe)
         for ov, k in cands:
             sp = uni.hist_spec[k]
-            out = F.Or(out, F.And(absent_so_far, self.pres(sp), self.unaltered(rt.term_of(sp[0]), cur_u, j)))
+            out = F.Or(out, F.And(absent_so_far, self.pres(sp), self.unaltered(rt.term_of(sp[0]), cur_u, j, u)))
             absent_so_far = F.And(absent_so_far, F.Not(self.pres(sp)))
         return out
 
@@ -364,12 +364,12 @@ class OracleMonitor(Monitor):
                     self.oblige(ns, 'C16', self.ref.uptodate(e, cur) or F.TRUE,
                                 'changed-output error raised for ephemeral %s whose inputs had changed / which is not up to date' % e)
                     if own is not None:
-                        self.oblige(ns, 'C16', F.Not(self.ref.unaltered(rt.term_of(own[0]), o)),
+                        self.oblige(ns, 'C16', F.Not(self.ref.unaltered(rt.term_of(own[0]), o, '!!!', e)),
                                     'changed-output error raised for ephemeral %s although its output is judged unaltered' % e)
                 if e not in ns.eng.query_failed():
                     ex.report('C16', 'ephemeral %s with changed output is not reported failed' % e, ns)
             elif r == 'ok' and vs == 'Validated' and own is not None:
-                f = F.Not(F.And(self.ref.pres(own), F.Not(self.ref.unaltered(rt.term_of(own[0]), o))))
+                f = F.Not(F.And(self.ref.pres(own), F.Not(self.ref.unaltered(rt.term_of(own[0]), o, '!!!', e))))
                 self.oblige(ns, 'C16', f, 'validated ephemeral %s reported an output judged different from its record, no error raised' % e)
         # C07: blocked set
         if (k == 'fail' or r == 'err:EphemeralChangedOutput') and not r.startswith(('panic', 'err:Internal', 'stepbudget')):
@@ -505,7 +505,8 @@ class OracleMonitor(Monitor):
                         ex.report('C08', 'record %r of what failed job %s last consumed was changed' % (k, j), st)
             elif j not in dv.started and state[j] in ('FinishedUpstreamFailure', 'FinishedAborted'):
                 for k in own_keys + ['%s!!!%s' % (u, j) for u in ups]:
-                    if not self.entries_identical(st, h_entry(h1, k), spec_entry(uni, k), modulo=True, consumer=(j if '!!!' in k and not k.endswith('!!!') else '!!!')):
+                    if not self.entries_identical(st, h_entry(h1, k), spec_entry(uni, k), modulo=True, consumer=(j if '!!!' in k and not k.endswith('!!!') else '!!!'),
+                                                  producer=(k.split('!!!')[0] if '!!!' in k and not k.endswith('!!!') else j)):
                         ex.report('C09', 'never-started job %s (%s): record %r not kept unchanged' % (j, state[j], k), st)
             elif j in okd:
                 # presence may still be a symbolic atom when the engine carried an input record over instead of writing it:
@@ -541,7 +542,7 @@ class OracleMonitor(Monitor):
                     if p is False:
                         ex.report('C11', 'validly skipped job %s: record %r missing from the returned history' % (j, k), st)
                         continue
-                    f = F.And(F.Atom(p), self.ref.unaltered(rt.term_of(v), cur[u], j))
+                    f = F.And(F.Atom(p), self.ref.unaltered(rt.term_of(v), cur[u], j, u))
                     self.oblige(st, 'C11', f, 'validly skipped job %s: record %r does not match the current output of %s' % (j, k, u))
         # WF is inductive: own record and input-name record present together
         for j in uni.ids:
@@ -551,7 +552,7 @@ class OracleMonitor(Monitor):
                 self.oblige(st, 'C11', F.Iff(F.Atom(p1), F.Atom(p2)), 'returned history has record %r without %r (or vice versa)' % (j, j + '!!!'))
         self.check_c18(st, h1)
 
-    def entries_identical(self, st, a, b, modulo=False, need_present=False, consumer='!!!'):
+    def entries_identical(self, st, a, b, modulo=False, need_present=False, consumer='!!!', producer=None):
         """entry a (returned) vs b (input history): same presence and same value"""
         pa, va = a
         pb, vb = b
@@ -572,7 +573,7 @@ class OracleMonitor(Monitor):
             return True
         ta = rt.term_of(va)
         tb = rt.term_of(vb)
-        f = self.ref.unaltered(tb, ta, consumer) if (modulo and self.uni.mode != 'ident') else F.Eq(ta, tb)
+        f = self.ref.unaltered(tb, ta, consumer, producer) if (modulo and self.uni.mode != 'ident') else F.Eq(ta, tb)
         ok, _ = z.valid_f(st.pc, st.fpc(), F.Implies(F.Atom(pa), f))
         return ok
 
